@@ -29,6 +29,13 @@ def sigVerifies (e s r p : Nat) : Bool := s % N == (r + e * p) % N
 /-- `add_signatures`: the sum of the partial `s` values (the `R` of the result is the nonce sum) -/
 def addSignatures (parts : List Nat) : Nat := parts.sum % N
 
+/-- `subtract_signature(sig, partial)` (secp256k1-zkp `secp256k1_aggsig_subtract_partial_signature`),
+the `s` half: `secp256k1_scalar_negate` of the partial's `s`, then `secp256k1_scalar_add`.  The
+nonce half is the point difference `R_sig − R_partial` — in the exponent the difference of the
+secret nonces; the library returns up to two candidates for it because a signature stores only the
+x coordinate of its nonce. -/
+def subtractSignature (s p : Nat) : Nat := (s % N + (N - p % N) % N) % N
+
 /-- every signer's partial signature, signers given as (secret key, secret nonce) -/
 def partialSigs (e : Nat) (signers : List (Nat × Nat)) : List Nat :=
   signers.map fun s => partialSig e s.1 s.2
